@@ -628,6 +628,35 @@ impl G {
                 Op::Dispatch(Timeout::Zero),
             ];
         }
+        if p.kinds[7] >= 2 && (self.srcs.len() as u64) + 1 < p.max_sources && self.rng.chance(1, 40) {
+            // a source made of several sub-sources, one of them a timer parked without a
+            // deadline; another source's callback arms it in the middle of the dispatch in which
+            // a later sibling's event has already been collected
+            let (c, t) = (self.fresh(), self.fresh());
+            self.srcs.push((c, KindTag::Composite, false));
+            self.srcs.push((t, KindTag::Timer, false));
+            let mut children = vec![ChildSpec::ParkedTimer];
+            for _ in 0..self.rng.range(1, 3) {
+                children.push(if self.rng.chance(1, 2) { ChildSpec::Ping } else { ChildSpec::Timer(Deadline::In(self.rng.range(0, 2) * MS)) });
+            }
+            if self.rng.chance(1, 3) {
+                children.rotate_right(1);
+            }
+            let n = children.len() as u32;
+            let mut v = vec![
+                Op::InsertComposite { id: c, children, script: vec![] },
+                Op::InsertTimer { id: t, dl: Deadline::In(self.rng.range(0, 2) * MS), keep: false, script: vec![CbEntry { ops: vec![Op::ArmChildTimer(c, u32::MAX, self.rng.range(0, 3) * MS)], ret: Ret::Continue }] },
+            ];
+            for i in 0..n {
+                if self.rng.chance(1, 2) {
+                    v.push(Op::PingChild(c, i));
+                }
+            }
+            v.push(Op::Advance(2 * MS));
+            v.push(Op::Dispatch(Timeout::Zero));
+            v.push(Op::Dispatch(Timeout::Some(5 * MS)));
+            return v;
+        }
         if p.adapters > 0 && !self.adapters.is_empty() && self.rng.chance(1, 40) {
             // a source the program keeps is handed an adapter which it drops inside one of its
             // own (un)registration calls, and goes through exactly that call: removed and
